@@ -235,7 +235,41 @@ def gen_case(seed, profile_weights, tier, tol_lo=None):
         faults, _ = place_faults(block, knobs, case['drive'], S['faults'], kinds,
                                  n_faults=S['faults'].choice([1, 1, 2]))
         case['faults'] = faults
+    if profile in ('contractive', 'contractive_plain', 'mixed') and knobs.get('prelude') is None \
+            and S['swarm'].random() < 0.08:
+        nest_names(case, S['swarm'])
     return case
+
+
+def nest_names(case, rng):
+    """Rename two variables so that one name contains the other and ends like a lag marker does (M / M1, r / rk,
+    x2 / x21): names are whole tokens, whatever characters they end in. The longer name goes to a lag source."""
+    import re
+    block = case['block']
+    sources = [s_ for _, s_, _ in block['lags'] if s_ != 't']
+    others = [v for v, _ in block['eqs'] if v not in sources and v != 't']
+    if not sources or not others:
+        return
+    a = sources[rng.randrange(len(sources))]
+    b = others[rng.randrange(len(others))]
+    short, long_ = rng.choice([('M', 'M1'), ('r', 'rk'), ('x2', 'x21'), ('stoc', 'stock'), ('c', 'c0'), ('W', 'W0')])
+    have = set(eqn.block_vars(block))
+    if {short, long_, 'LAG_' + short, 'LAG_' + long_} & have:
+        return
+    ren = {a: long_, b: short, 'LAG_' + a: 'LAG_' + long_, 'LAG_' + b: 'LAG_' + short}
+
+    def rn(txt):
+        return re.sub(r'[A-Za-z_][A-Za-z_0-9]*', lambda m: ren.get(m.group(0), m.group(0)), txt)
+    block['eqs'] = [[rn(v), rn(r_)] for v, r_ in block['eqs']]
+    block['lags'] = [[rn(l), rn(s_), st] for l, s_, st in block['lags']]
+    block['ics'] = [[rn(v), t_] for v, t_ in block['ics']]
+    block['exo'] = [[rn(v), t_] for v, t_ in block['exo']]
+    if case['knobs'].get('tick_var') is not None:
+        case['knobs']['tick_var'] = ren.get(case['knobs']['tick_var'], case['knobs']['tick_var'])
+    st = case['knobs'].get('steady')
+    if st and st.get('excluded'):
+        st['excluded'] = [ren.get(x, x) for x in st['excluded']]
+    case.setdefault('expect', {})['nested_names'] = [short, long_]
 
 
 def econ_block(seed, tight=False):
